@@ -11,4 +11,12 @@ PROPS = {
         "assumptions": ["NaN sources are outside the property (no value to saturate to)",
                         "float sources are modelled as arbitrary rationals/±Inf, a superset of float32/float64"],
     },
+    "C19": {
+        "areas": ["Page"],
+        "harness": "page",
+        "verdict_findings": {"C19_verdict_ctor": "ctor-error-swallowed"},
+        "trusted_base": ["Model.Page (hand-written model of AbstractPaginator.HasNext/GetNext/Stop), validated differentially on every run",
+                         "mock pages/iterators of the harness behave as honest IStaticPage/IPage/IIterator implementations"],
+        "assumptions": ["stream paginators are exercised only over streams without future pages (their extra wait loop is timing-dependent, see DESIGN §7 C19)"],
+    },
 }
